@@ -22,7 +22,6 @@ from vlib.core import cbool, clist, copt, ctuple, cz
 
 ID = "C13"
 ALLOWED_AXIOMS: list[str] = []
-OPEN_F14 = "c13:cross-crs-disjoint-raises"
 
 DT = {"bool": "DBool", "uint8": "DU8", "int8": "DI8", "uint16": "DU16", "int16": "DI16", "int32": "DI32",
       "float32": "DF32", "float64": "DF64"}
@@ -310,8 +309,6 @@ def p_disjoint(cfg):
         data, whole, chunked, sgb, dgb = run_xr(cfg)
     except Exception as e:  # noqa: BLE001
         key = "disjoint"
-        if cfg["src_crs"] != cfg["dst_crs"] and type(e).__name__ == "GEOSException":
-            key = "cross-crs-disjoint-raises"
         return False, f"raised {type(e).__name__}: {str(e)[:200]}", key
     fill = fill_of(cfg)
     for name, arr in (("in-memory", whole), ("chunked", chunked)):
@@ -409,6 +406,9 @@ def p_direct(cfg):
         return False, f"raised {r['exc']}", "direct"
     sn, dn = nd(cfg.get("src_nodata")), nd(cfg.get("dst_nodata"))
     fill = expected_fill(cfg["dtype"], dn, sn)
+    if r["chunked"].shape != r["whole"].shape or r["chunked"].dtype != r["whole"].dtype:
+        return False, (f"computed array has shape {r['chunked'].shape} dtype {r['chunked'].dtype}, in-memory result "
+                       f"{r['whole'].shape} {r['whole'].dtype}"), "direct"
     c = yx_first(r["chunked"], cfg)
     v = c[r["nn"] == 0]
     if v.size and not bool(is_val(v, fill).all()):
@@ -439,6 +439,9 @@ def p_complete_deps(cfg):
         return False, f"raised {r['exc']}", "complete-deps"
     sn, dn = nd(cfg.get("src_nodata")), nd(cfg.get("dst_nodata"))
     fill = expected_fill(cfg["dtype"], dn, sn)
+    if r["chunked"].shape != r["whole"].shape or r["chunked"].dtype != r["whole"].dtype:
+        return False, (f"computed array has shape {r['chunked'].shape} dtype {r['chunked'].dtype}, in-memory result "
+                       f"{r['whole'].shape} {r['whole'].dtype}"), "complete-deps"
     c = yx_first(r["chunked"], cfg)
     v = c[r["nn"] == 0]
     if v.size and not bool(is_val(v, fill).all()):
@@ -547,8 +550,9 @@ def rand_layout(rng, cfg):
     lay = rng.choice(["yx", "yx", "tyx", "tyx", "tyx", "yxb", "tyxb"])
     cfg["layout"] = lay
     if "t" in lay:
-        cfg["T"] = rng.choice([1, 2, 3])
-        cfg["t_chunk"] = rng.choice([1, cfg["T"]])
+        # leading axis 1..5 long in chunks of 1..3: dividing, non-dividing (3 in 2s, 5 in 2s/3s, 4 in 3s) and single chunk
+        cfg["T"] = rng.choice([1, 2, 3, 3, 4, 5, 5])
+        cfg["t_chunk"] = rng.choice([1, 2, 2, 3, cfg["T"]])
     if lay.endswith("b"):
         cfg["B"] = 2
         cfg["b_chunk"] = rng.choice([1, 2])
@@ -601,11 +605,14 @@ def rand_same_crs(rng, kind=None, level="xr", layout=True, absent_dn=False):
     return cfg
 
 
-def rand_cross_crs(rng, disjoint=False):
-    ss, st, sc, ds, dt_, dc = rng.choice(CROSS)
+def rand_cross_crs(rng, disjoint=False, pair=None):
+    ss, st, sc, ds, dt_, dc = rng.choice(CROSS) if pair is None else CROSS[pair % len(CROSS)]
     dt_ = list(dt_)
     if disjoint:
-        dt_[2] += 70 * dt_[0] * rng.choice([1, -1])
+        if rng.random() < 0.7:
+            dt_[2] += 70 * dt_[0] * rng.choice([1, -1])
+        else:
+            dt_[5] += 70 * dt_[4] * rng.choice([1, -1])
     else:
         dt_[2] += rng.randint(-3, 3) * dt_[0]
         dt_[5] += rng.randint(-3, 3) * dt_[4]
@@ -894,6 +901,10 @@ def run(out, tier, scratch):
         # the same configuration through the property predicates
         judge("direct", cfg, f"run {i}")
         judge("complete-deps", cfg, f"run {i}")
+        # the same placement with a leading axis cut into chunks that do not divide it (short trailing chunk)
+        T, tc = rng.choice([(3, 2), (5, 2), (5, 3), (4, 3), (2, 1), (1, 1)])
+        cfg_t = dict(cfg, layout="tyx", T=T, t_chunk=tc)
+        judge("complete-deps" if i % 2 else "direct", cfg_t, f"run {i} (time {T} in chunks of {tc})")
 
     fails, log = core.coq_eval_failures(REQ, "case", "check", cases, scratch, shard=40, tag="c13")
     detail = ""
@@ -907,12 +918,16 @@ def run(out, tier, scratch):
     n_eq = 220 if tier == "quick" else 4000
     for i in range(n_eq):
         cfg = rand_same_crs(rng, kind=kinds[i % len(kinds)] if i % 3 else None)
+        if cfg["kind"] in ("larger", "partial", "disjoint") and rng.random() < 0.5:
+            cfg["layout"] = "tyx" if not cfg.get("layout", "yx").endswith("b") else "tyxb"
+            cfg.setdefault("B", 2)
+            cfg["T"], cfg["t_chunk"] = rng.choice([(3, 2), (5, 2), (5, 3), (4, 3)])
         judge("disjoint" if cfg["kind"] == "disjoint" else "equal", cfg, f"search {i}")
     n_x = 40 if tier == "quick" else 600
     for i in range(n_x):
         judge("fill", rand_cross_crs(rng), f"cross-crs {i}")
-    for i in range(3 if tier == "quick" else 30):
-        judge("disjoint", rand_cross_crs(rng, disjoint=True), f"cross-crs disjoint {i}")
+    for i in range(8 if tier == "quick" else 60):   # every CRS pair of CROSS, shifted away along x or y
+        judge("disjoint", rand_cross_crs(rng, disjoint=True, pair=i), f"cross-crs disjoint {i}")
     # a model/code disagreement on a whole run: look at that configuration with the predicates as well
     if fails and not found:
         for i in fails[:8]:
